@@ -11,5 +11,6 @@ for d in "$DIR"/seeded/${1:-C}*/; do
   out=$(MUTANT_ARGS="${REGRESS_ARGS:-}" "$DIR/tools/mutant.sh" "$d/patch.diff" $checks 2>&1)
   nv=$(echo "$out" | grep -c "^VIOLATION"); he=$(echo "$out" | grep -c "HARNESS")
   v="MISSED"; [ "$nv" -gt 0 ] && v="caught"; [ "$he" -gt 0 ] && v="HARNESS-ERROR"
+  echo "$out" | grep -q "PATCH-FAILED" && v="PATCH-DOES-NOT-APPLY"
   printf "%-8s %-4s -> %-14s (%s violation lines)\n" "$id" "$checks" "$v" "$nv"
 done
